@@ -330,6 +330,11 @@ func (c *Check) finish(verifDir string, t0 time.Time, seed int, onlyKey string) 
 // asRule. Used where one structural rule is a necessary condition of two
 // properties.
 func shareRules(c *Check, fn func(*Check), rules []string, asRule, prefix string) int {
+	return shareRulesWhere(c, fn, rules, asRule, prefix, nil)
+}
+
+// shareRulesWhere: as shareRules, restricted to the obligations whose name satisfies keep.
+func shareRulesWhere(c *Check, fn func(*Check), rules []string, asRule, prefix string, keep func(name string) bool) int {
 	if c.isShared {
 		// a check evaluated for the sake of another one does not pull in third parties' rules
 		return 1 << 20
@@ -344,7 +349,7 @@ func shareRules(c *Check, fn func(*Check), rules []string, asRule, prefix string
 	}
 	n := 0
 	for _, o := range sub.Obls {
-		if want[o.Rule] || (!o.OK && (o.Rule == "anchor" || o.Rule == "engine")) {
+		if (want[o.Rule] && (keep == nil || keep(strings.TrimPrefix(o.Key, o.Rule+"|")))) || (!o.OK && (o.Rule == "anchor" || o.Rule == "engine")) {
 			n++
 			ob := c.add(asRule, prefix+strings.TrimPrefix(o.Key, o.Rule+"|"), o.Desc, o.OK, o.Where, o.Detail...)
 			ob.Undecided = o.Undecided
